@@ -134,15 +134,22 @@ func main() {
 	runThresholds(f, res, r.Fork(1000003), drv, nil)
 	runLead(res, drv)
 	runNilValueLead(res)
+	runShipped(res, drv)
 	drv.Close()
 
 	// trace validation of the real consensus/driver (real time, a few seconds, in the background)
 	var dwg sync.WaitGroup
+	var dmu sync.Mutex
+	dCommits, dTimeouts := 0, 0
 	for k := 0; k < f.Scale(6, 40); k++ {
 		dwg.Add(1)
 		go func(k int) {
 			defer dwg.Done()
-			runDriverTrace(res, r.Fork(uint64(7000000+k)), k)
+			c, t := runDriverTrace(res, r.Fork(uint64(7000000+k)), k)
+			dmu.Lock()
+			dCommits += c
+			dTimeouts += t
+			dmu.Unlock()
 		}(k)
 		if k%8 == 7 {
 			dwg.Wait()
@@ -262,6 +269,10 @@ func main() {
 	close(jobs)
 	wg.Wait()
 	dwg.Wait()
+	if dCommits < 20 || dTimeouts < 20 {
+		// an idle run sees ~300 commits and ~1200 timeouts; a starved trace validates nothing
+		res.Fatalf("driver traces starved: only %d commits and %d timeouts observed over all traces", dCommits, dTimeouts)
+	}
 	for k, v := range agg {
 		res.HitN(k, v)
 	}
